@@ -29,6 +29,25 @@ CLAIMS = [
              "bounds; reads after evictions / drains are validated against the canonical content.",
      "note": "A/B strategy bound is per arm (as the server constructs it); query-result cache growth is exercised by the search lab",
      "ref": "DESIGN.md section 6 (C20)"},
+    {"id": "C01",
+     "technique": "recorded fs-effect trace -> TLC (FsCrash.tla) enumerates crash states -> real strict recovery on each -> TLC trace validation (DurabilityOracle.tla)",
+     "text": "Each TLC-generated history runs on the real persistent backend in a child process under an LD_PRELOAD shim that records every "
+             "write/fsync/rename/unlink/truncate with payloads and call/return marks. The child is really killed before every effect; FsCrash.tla, "
+             "instantiated with the recorded effects, lets TLC enumerate every power-loss view (per-inode and per-directory durable prefixes); torn "
+             "prefixes of every write are added; recoveries are themselves killed at each of their effects. Every crash state is recovered by the real "
+             "strict recovery in a fresh process and judged by TLC against the acknowledged-prefix oracle.",
+     "note": "power-loss model exactly as stated in the property (no block reordering inside one write); 2 ids x 2 vectors; fsync policies Always / "
+             "Periodic / Never; two known findings (non-atomic batch delete, periodic policy never syncs an idle WAL) listed in known_findings.json",
+     "ref": "DESIGN.md section 6 (C01)"},
+    {"id": "C13",
+     "technique": "TLC-generated histories -> real data directories -> enumerated single faults (flip / truncate / delete at structural offsets) -> real strict recovery -> TLC validation (DurabilityOracle.DamageOk)",
+     "text": "Directories with several snapshots and rotated / compacted segments are produced by the real engine from TLC histories; every file is "
+             "damaged at every structural field (magic, length, payload, CRC, size, JSON bytes) by bit flips, truncated at every frame boundary +-1, "
+             "or removed; the real strict recovery (with the server's no-MANIFEST rule) runs in a fresh process and TLC judges refuse-or-exact.",
+     "note": "single fault per trial; truncation of the newest segment excluded as in the property; one known finding (suffix loss of a WAL segment "
+             "is indistinguishable from a crash tail) listed in known_findings.json; three defects repaired by fix: commits",
+     "level": "fault_enumeration",
+     "ref": "DESIGN.md section 6 (C13)"},
 ]
 
 _PENDING = "not yet covered by the specification suite in this revision (see DESIGN.md section 11 for the construction order)"
